@@ -2620,6 +2620,8 @@ def _prox_huber(o):
 
 
 BASE_PROX = ['l1', 'l2', 'l2sq', 'ccl1', 'ccl2sq', 'box', 'linf']
+# base factories documented to accept element-valued steps
+ELEM_STEP_PROX = ['l1', 'l2sq', 'ccl1', 'ccl2sq']
 
 
 def _base_prox_factory(k, sp, lam, g):
@@ -2638,7 +2640,12 @@ def _base_prox_factory(k, sp, lam, g):
 def _calc_entry(rule, classes):
     @entry('prox.' + rule, 'prox', classes=classes, c10=True, weight=2)
     def _f(o):
-        parts = _prox_common(o, pspace=(rule != 'proximal_composition'))
+        # element-valued steps where the rule hands the step on to the base
+        # factory ("a pointwise positive space element ... if prox_factory
+        # supports that")
+        elem_rule = rule in ('proximal_convex_conj', 'proximal_translation')
+        parts = _prox_common(o, pspace=(rule != 'proximal_composition'),
+                             elem_ok=elem_rule)
         bk = o.pick('base', BASE_PROX)
         bk2 = o.pick('base2', BASE_PROX)
         s = o.scalar('s', nonzero=True)
@@ -2651,7 +2658,11 @@ def _calc_entry(rule, classes):
 
         def mk():
             sp, lam, g, sig = parts()
-            fac = _base_prox_factory(bk, sp, lam, g)
+            bk_ = bk
+            if not np.isscalar(sig) and bk not in ELEM_STEP_PROX:
+                bk_ = ELEM_STEP_PROX[BASE_PROX.index(bk) %
+                                     len(ELEM_STEP_PROX)]
+            fac = _base_prox_factory(bk_, sp, lam, g)
             if rule == 'proximal_convex_conj':
                 return PO.proximal_convex_conj(fac)(sig)
             if rule == 'proximal_translation':
